@@ -32,7 +32,7 @@ ASSUMPTIONS = [
     'a slice selecting no frame is a legal failing call: it may raise a TotalDepth exception or return 0, and must not change later results',
     'EFLR sub-language: every object carries all template attributes (value, count+value or absent); no invariant attributes, no redundant/replacement sets',
 ]
-PROBES = ['partial_after_full_same_count', 'full_after_partial_same_count', 'sample_lt_n', 'step_gt1', 'subset_excl_last', 'subset_excl_middle', 'dim2',
+PROBES = ['negative_step', 'partial_after_full_same_count', 'full_after_partial_same_count', 'sample_lt_n', 'step_gt1', 'subset_excl_last', 'subset_excl_middle', 'dim2',
           'interleaved_types', 'after_failed_populate', 'fetch_between', 'subset_unknown_name', 'empty_iflr', 'multi_lf', 'frame_number_gap', 'record_spans_vrs']
 
 LogicalFile = Slice = ExceptionTotalDepth = None
@@ -68,6 +68,9 @@ def gen_ops(rng, model):
             b = rng.pick([None, None, n, n - 1, n // 2 + 1, 3, -1, n + 5])
             s = rng.pick([None, 1, 2, 3, 4, 7])
             sl = ['slice', a, b, s]
+            if rng.chance(0.2):
+                # descending slices are python slice semantics too
+                sl = ['slice', rng.pick([None, n - 1, n // 2, -1, n + 3]), rng.pick([None, 0, 1, n // 3, -n - 1]), -rng.pick([1, 1, 2, 3, 5])]
         elif kind == 'sample':
             sl = ['sample', rng.pick([1, 2, 3, 5, 8, n, n + 3, max(1, n - 1)])]
         else:
@@ -259,6 +262,8 @@ def execute(scenario):
         h.append(('full' if full_sel else 'partial', len(indices)))
         if sl and sl[0] == 'slice' and (sl[3] or 1) > 1 and len(indices) > 1:
             res.probe('step_gt1')
+        if sl and sl[0] == 'slice' and (sl[3] or 1) < 0:
+            res.probe('negative_step')
         if chans is not None and len(names) > 1 and not want_sel[-1]:
             res.probe('subset_excl_last')
         if chans is not None and len(names) > 2 and not all(want_sel[1:-1]):
